@@ -35,6 +35,9 @@ var terminalTokens = []string{
 	"if-then", "if-else", "cond-clause", "cond-else", "progn-last", "let-body", "let*-body",
 	"flet-body", "labels-body", "or-last", "thread-first-last", "thread-last-last", "dotimes-result",
 	"funcall", "apply",
+	// the result form of a dotimes whose count is zero / negative (the body never runs; with and without a body form):
+	// it is in tail position whatever the count is
+	"dotimes-result-zero", "dotimes-result-negative-no-body",
 }
 
 var blockerTokens = []string{"MACRO-BODY", "HANDLER-BIND", "IGNORE-ERRORS", "LOAD-STRING"}
@@ -323,6 +326,10 @@ func wrap(c Case, tok string, level, k int, v vars, inner form) form {
 		}
 	case "dotimes-result":
 		return form{head: "dotimes", args: []string{fmt.Sprintf("(i%d 1 %s)", L, E), fmt.Sprintf("(debug-print %d i%d)", L, L)}, tail: 0}
+	case "dotimes-result-zero":
+		return form{head: "dotimes", args: []string{fmt.Sprintf("(i%d 0 %s)", L, E), fmt.Sprintf("(debug-print %d i%d)", L, L)}, tail: 0}
+	case "dotimes-result-negative-no-body":
+		return form{head: "dotimes", args: []string{fmt.Sprintf("(i%d (- 0 1) %s)", L, E)}, tail: 0}
 	case "funcall":
 		if inner.bare {
 			return form{head: "funcall", args: append([]string{inner.head}, inner.args...), fn: true, tail: -1}
